@@ -2,6 +2,8 @@
    No proofs are required here, so the model still runs when a proof breaks. *)
 From Agdb Require Export Bytes Utf8 Codec DbValue Graph DbModel Search Queries FileWal.
 From Agdb Require Raft.
+From Agdb Require Export ExecSched.
+From Agdb Require Export ValueIndex OpenFile.
 (* loaded last: the extraction renames clashing names of LATER libraries, the drivers of the earlier ones keep theirs;
    m_conc.ml / m_derive.ml use only the uniquely named entry points *)
 From Agdb Require Export ConcRead DeriveType.
